@@ -3,6 +3,7 @@ package main
 // Evaluation of contract expressions (Go expression syntax) in a symbolic state.
 
 import (
+	"sort"
 	"fmt"
 	"go/ast"
 	"go/constant"
@@ -693,6 +694,23 @@ func (e *Env) evalCall(n *ast.CallExpr) TV {
 		if o, ok := x.valOrigin[av.id]; ok && !pv.hasBound {
 			// a validator held in a slot of interface type: the forest facts of a stored child
 			x.noteChildLoad(o, pv)
+		}
+		if !pv.hasBound && len(x.prog.Cons.ValidatorTypes) > 0 {
+			// whatever the dynamic type of the boxed pointer is, the object it points to has that kind
+			var names []string
+			for tn := range x.prog.Cons.ValidatorTypes {
+				names = append(names, tn)
+			}
+			names = append(names, "Result")
+			sort.Strings(names)
+			for _, tn := range names {
+				T := x.lookupType(tn)
+				if T == nil {
+					continue
+				}
+				PT := types.NewPointer(T)
+				x.addFactRaw(tt.Implies(tt.Eq(x.tagOf(av), x.tidLit(PT)), x.objKindFact(pv, PT)))
+			}
 		}
 		return TV{pv, types.Typ[types.UnsafePointer]}
 	case "isInt", "isUint", "isF64", "isF32", "isStr", "isBool", "isPtr", "isSliceV":
